@@ -5,7 +5,7 @@
    invariant that C09 shows for every reachable value. *)
 From AS Require Import Base.
 From AS.Model Require Import Table Ops.
-From AS.Proofs Require Import TableProofs SliceProofs.
+From AS.Proofs Require Import TableProofs SliceProofs GenFns.
 
 Section C04.
 Variable s : astr.
@@ -37,6 +37,13 @@ Print Assumptions C04_text.
 Print Assumptions C04_settings.
 Print Assumptions C04_sorted.
 Print Assumptions C04_closed.
+
+(* the bound normalisation used above IS the code's _slice_val_to_idx: its body is re-translated from the
+   Python source on every run (Gen/Fns.v) and shown equal to slice_idx *)
+Theorem C04_bounds_are_code : forall (len : nat) (v : option Z) (d : nat),
+  Z.of_nat (slice_idx len v d) = AS.Gen.Fns.gen_slice_val_to_idx (Z.of_nat len) v (Z.of_nat d).
+Proof. exact slice_idx_is_code. Qed.
+Print Assumptions C04_bounds_are_code.
 
 (* text appended to a slice keeps only its own style: every appended position reports nothing *)
 Theorem C04_no_bleed : forall (s : astr) (a b : option Z) (t : str),
